@@ -272,6 +272,7 @@ def gen_scratch(prop, job, dest, t1=True, extra_tests=None, cap=None, release=Fa
         members.append('hx')
         lib = '#![allow(dead_code, unused_imports, unused_variables, unused_mut)]\n'
         need_vcoll = False
+        under = {}
         for sl in hx.get('slices', []):
             s = read(os.path.join(REPO, sl['from']))
             files_used.append(sl['from'])
@@ -286,8 +287,14 @@ def gen_scratch(prop, job, dest, t1=True, extra_tests=None, cap=None, release=Fa
             if inj:
                 body = read(os.path.join(hdir, inj))
                 s += wrap('use super::*;\n' + body, '__verif', extra_tests.get(inj))
-            write(os.path.join(dest, 'hx', 'src', sl['as'] + '.rs'), s)
-            lib += 'pub mod %s;\n' % sl['as']
+            if sl.get('under'):
+                write(os.path.join(dest, 'hx', 'src', sl['under'], sl['as'] + '.rs'), s)
+                under.setdefault(sl['under'], []).append(sl['as'])
+            else:
+                write(os.path.join(dest, 'hx', 'src', sl['as'] + '.rs'), s)
+                lib += 'pub mod %s;\n' % sl['as']
+        for u, ms in under.items():
+            lib += 'pub mod %s { %s }\n' % (u, ' '.join('pub mod %s;' % m for m in ms))
         if need_vcoll:
             write(os.path.join(dest, 'hx', 'src', 'vcoll.rs'), vcoll)
             lib += 'pub mod vcoll;\n'
@@ -716,7 +723,11 @@ def cmd_check(prop, tier, only, keep, seed):
     ev = build_evidence(prop, plan, tier, seed, results, violations, known_lines, inconclusive, wall)
     os.makedirs(os.path.join(VERIF, 'evidence'), exist_ok=True)
     write(os.path.join(VERIF, 'evidence', prop + '.json'), json.dumps(ev, indent=1))
-    shutil.rmtree(root, ignore_errors=True)
+    if keep:
+        _scratch_dirs.remove(root)
+        log('[vk] scratch kept at ' + root)
+    else:
+        shutil.rmtree(root, ignore_errors=True)
 
     # ---- report
     for out in results:
